@@ -106,6 +106,41 @@ def ModFeature.fromBiopython (known : String → Option FDomain) (q : Quals) : E
               ModFeature.construct domains type complete (qhas q "starter_module") (qhas q "final_module")
                 (qhas q "iterative")
 
+/-! ### `generate_domain_features` and the domain look-up of `add_to_record` -/
+
+/-- `generate_domain_features`: one domain feature per hit of the gene, named
+    `nrpspksdomains_<gene>_<profile>.<running number per profile>` -/
+def domainFeatures (gene : String) (strand : Int) : List Domain → List (String × Nat) → List (Domain × FDomain)
+  | [], _ => []
+  | d :: ds, counts =>
+    let n := ((counts.find? fun kv => kv.1 == d.label).map (·.2)).getD 0 + 1
+    (d, ⟨"nrpspksdomains_" ++ gene ++ "_" ++ d.label ++ "." ++ toString n, gene, strand⟩)
+      :: domainFeatures gene strand ds ((d.label, n) :: counts)
+
+/-- the dict `domain_features` keyed by the hit: a later equal hit overwrites an earlier one -/
+def tableOf (entries : List (Domain × FDomain)) (hit : Domain) : Option FDomain :=
+  (entries.reverse.find? fun e => e.1 == hit).map (·.2)
+
+/-- the per-gene dicts of a gene list (`self.cds_results[record.get_cds_by_name(locus)]`) -/
+def geneTables (genes : List Gene) (locus : String) : Domain → Option FDomain :=
+  match genes.find? fun g => g.name == locus with
+  | some g => tableOf (domainFeatures g.name g.strand g.domains [])
+  | none => fun _ => none
+
+/-- the loop over the components in `add_to_record`: a component of the gene that holds the
+    module is looked up in that gene's dict, any other one in the dict of its own gene -/
+def lookupDomains (tables : String → Domain → Option FDomain) (holder : String) :
+    List Comp → Except Err (List FDomain)
+  | [] => .ok []
+  | c :: cs =>
+    let found := if c.locus == holder then tables holder c.domain else tables c.locus c.domain
+    match found with
+    | none => .error .keyError
+    | some d =>
+      match lookupDomains tables holder cs with
+      | .error e => .error e
+      | .ok ds => .ok (d :: ds)
+
 /-- the module type chosen in `add_to_record` -/
 def Module.featureType (m : Module) : ModType :=
   if m.isNrps then .nrps else if m.isPks then .pks else if m.isCoaLigase then .cal else .unknown
@@ -113,5 +148,12 @@ def Module.featureType (m : Module) : ModType :=
 /-- `add_to_record`: the feature made from a detection module and its domain features -/
 def Module.toFeature (m : Module) (domains : List FDomain) : Except Err ModFeature :=
   ModFeature.construct domains m.featureType m.isComplete m.isStarterModule m.isTerminationModule m.isIterative
+
+/-- `add_to_record` for one reported module held by gene `holder` -/
+def Module.report (tables : String → Domain → Option FDomain) (holder : String) (m : Module) :
+    Except Err ModFeature :=
+  match lookupDomains tables holder m.components with
+  | .error e => .error e
+  | .ok ds => m.toFeature ds
 
 end ASV.Modules
